@@ -185,6 +185,12 @@ func malformedJSON(class string) []string {
 		return []string{`[tru]`, `[nul]`, `[NaN]`, `{a:1}`, `[Infinity]`}
 	case "emptyInput":
 		return []string{``, `   `}
+	case "malformedNumber":
+		var out []string
+		for _, n := range []string{"0x1p4", "0X1.8P1", "0x10", "1_0", "1e1_0", "0x_1p0", "+1", "01", "-00", "-01", "00", ".5", "5.", "1.e5", "-.5", "1e", "1e+", "-", "--1", "1.2.3", "1e5.5", "0b11", "0o7", "1E+-2", "Inf", "-Infinity", "1f"} {
+			out = append(out, `{"a":`+n+`}`, `[`+n+`]`, `[1,`+n+`,2]`)
+		}
+		return out
 	}
 	return nil
 }
